@@ -56,7 +56,7 @@ BUILT = {
   design="DESIGN.md section 5, C10"),
  "C11": dict(
   level="model_checking",
-  text="FrameImpl (see C10) is checked by TLC for TruncationIsError, FaultIsError, the chain rule (only a clean EOF exactly on a file boundary after >= 1 file ends a chain silently) and PartialContent at every cut and fault offset under every chunking; the same model with the pre-fix chain rule is shown to violate FaultIsError (non-vacuity). Recorded calls of the real code on valid single and chained streams cut or faulted at every offset (short streams) or at header / record-boundary +-1 / buffer-boundary +-1 / CRC offsets plus a seeded sample, in four reader behaviours (EOF, fault, last bytes together with EOF, last bytes together with the fault), through all entry points, are validated by TLC: error required, returned files hold exactly the records complete before the cut.",
+  text="FrameImpl (see C10) is checked by TLC for TruncationIsError, FaultIsError, the chain rule (only a clean EOF exactly on a file boundary after >= 1 file ends a chain silently) and PartialContent at every cut and fault offset under every chunking; the same model with the pre-fix chain rule is shown to violate FaultIsError (non-vacuity). Recorded calls of the real code on valid single and chained streams cut or faulted at every offset (short streams) or at header / record-boundary +-1 / buffer-boundary +-1 / CRC offsets plus a seeded sample, in six reader behaviours (EOF, fault, last bytes together with EOF, last bytes together with the fault, fault reported as io.ErrUnexpectedEOF, reader with a Len method), through all entry points, are validated by TLC: error required, returned files hold exactly the records complete before the cut.",
   note="Trusted: TLC. Fault enumeration is complete for streams up to 200 bytes (quick) / 400 bytes (thorough); longer streams at header, record-boundary, buffer-boundary and CRC offsets plus a seeded sample.",
   technique="TLA+ reader model with EOF/fault at every Read (TLC exhaustive) + fault enumeration on the real code with TLC trace validation",
   design="DESIGN.md section 5, C11"),
@@ -92,7 +92,7 @@ BUILT = {
   design="DESIGN.md section 5, C02"),
  "C03": dict(
   level="model_checking",
-  text="FitRef!Deliver states the routing contract over a schema that is derived by reflection from the container struct types (not from the add switches). TLC validates recorded Decode calls: all 256 file-type values (accepted iff one of the 17, NewFile agreeing), and for each of the 17 file types streams carrying every known message type 2-3 times plus unknown messages and later file_id records (other type, same type, invalid type, no type field) in seeded interleavings; slot membership, order, counts, last-wins for single slots, the reported file type and the set of succeeding accessors are compared.",
+  text="FitRef!Deliver states the routing contract over a schema that is derived by reflection from the container struct types (not from the add switches). TLC validates recorded Decode calls: all 256 file-type values (accepted iff one of the 17, NewFile agreeing), and for each of the 17 file types streams carrying every known message type 2-3 times plus unknown messages and later file_id records (other type, same type, invalid type, no type field) in seeded interleavings, definitions that carry a few or all fields of the message (timestamps not increasing, small repeating message_index values), a first file_id without type field; slot membership, order, counts, last-wins for single slots, the reported file type and the set of succeeding accessors are compared.",
   note="Trusted: TLC, reflection-derived schema. Interleavings are sampled (seeded), the (file type, message type) matrix is complete in every run.",
   technique="TLA+ routing contract (FitRef!Deliver, FitProfile!RouteTab) + TLC trace validation over the complete file-type x message-type matrix",
   design="DESIGN.md section 5, C03"),
